@@ -306,6 +306,18 @@ class _EvaluatorCompiler:
             result = abs(a) % abs(b)
             return -result if a < 0 else result
 
+        # for non-integer operands the result of "%" is backend specific
+        # (SQLite casts both operands to INTEGER first, PostgreSQL computes
+        # a NUMERIC remainder, ...); don't guess
+        if (
+            clause.left.type._type_affinity is not Integer
+            or clause.right.type._type_affinity is not Integer
+        ):
+            raise UnevaluatableError(
+                'Cannot evaluate math operator "mod" for non-integer '
+                f"datatypes {clause.left.type}, {clause.right.type}"
+            )
+
         return self._straight_evaluate_numeric_only(
             sql_mod, eval_left, eval_right, clause
         )
